@@ -190,8 +190,13 @@ class World(BaseWorld):
             rng.shuffle(perm)
             eperm = list(range(len(self.ref.edges)))
             rng.shuffle(eperm)
+            pre = []
+            if rng.random() < 0.25:
+                # sources labelled beforehand with the public per-node function
+                pre = [i for i in range(n) if self.ref.nodes[f'n{i}'].type in
+                       ('defense', 'exist', 'notExist') and rng.random() < 0.6]
             return {'op': 'analyse', 'mat': rng.choice(['hand', 'hand', 'dict']),
-                    'perm': perm, 'eperm': eperm}
+                    'perm': perm, 'eperm': eperm, 'pre_eval': pre}
         nassets = sum(1 for o in self.desc['model_ops'] if o['op'] == 'add_asset')
         perm = list(range(nassets))
         if self.nmat:
@@ -210,6 +215,13 @@ class World(BaseWorld):
             g, key = self._mat_hand(op)
         self.nmat += 1
         self.orders.add(canon([op['mat'], op.get('perm'), op.get('eperm')]))
+        if op.get('pre_eval') and op['mat'] != 'model':
+            by_key = {key(n): n for n in g.nodes}
+            for i in op['pre_eval']:
+                n = by_key.get(f'n{i}')
+                if n is not None and n.type in ('defense', 'exist', 'notExist'):
+                    call(self.apriori.evaluate_viability_and_necessity, n)
+            self.count('probe:sources_pre_evaluated')
         o = call(self.apriori.calculate_viability_and_necessity, g)
         where = f'analysis of materialisation {op["mat"]} order {op.get("perm")}'
         if o.raised:
